@@ -35,6 +35,7 @@ FCP_STUB = ('#pragma once\n#include "decoders.h"\n#include "i_schema.h"\nnamespa
 
 
 def abstract_cpp(src: str) -> str:
+    src = re.sub(r"\{#.*?#\}", "", src, flags=re.S)
     src = re.sub(r"\{%.*?%\}", "", src, flags=re.S)
     return re.sub(r"\{\{(.*?)\}\}", lambda m: "J_" + re.sub(r"[^A-Za-z0-9_]+", "_", m.group(1).strip()).strip("_"), src, flags=re.S)
 
@@ -313,7 +314,17 @@ def run(eng, rep) -> None:
             strs = [v for v in walk(lb) if v.kind == "VarDecl" and "string" in v.qtype and v.inner]
             tagp = next((p.get("name") for p in w.methods[ln].inner if p.kind == "ParmVarDecl" and "array<char" in p.qtype), None)
             sv = next((v for v in strs if tagp in names_in(v.inner[-1])), None)
-            if tagp is None or sv is None:
+            eq3 = [y for y in walk(lb) if y.kind == "CallExpr" and callee_name(y) == "equal" and len(y.inner) == 4 and tagp is not None and tagp in names_in(y.inner[3])] if sv is None else []
+            if eq3:
+                # compared in place with the three-iterator std::equal: only as many characters as the binding's bus name has are looked at
+                pad_test = any(y.kind == "BinaryOperator" and y.get("opcode") in ("==", "!=") and tagp in names_in(y) and any(z.kind in ("CharacterLiteral", "IntegerLiteral") and int(z.get("value", 1)) == 0 for z in walk(y)) for y in walk(lb)) \
+                    or any(y.kind == "CallExpr" and callee_name(y) in ("all_of", "none_of", "find", "strnlen", "strlen") for y in walk(lb))
+                if pad_test:
+                    rep.undecided("R18.4", F, "%s::%s" % (cname, ln), "std::equal(bus.begin(), bus.end(), tag.begin()) plus a test of the padding", "in-place comparison; that the rest of the tag is checked to be padding is not decided")
+                else:
+                    rep.violation("R18.4", F, "%s::%s" % (cname, ln), "std::equal(bus.begin(), bus.end(), %s.begin())" % tagp,
+                                  "the tag is compared with the three-iterator std::equal and nothing tests what follows: a binding's bus only has to be a prefix of the frame's tag, so a frame from bus \"pt1\" is attributed to the binding on bus \"pt\"")
+            elif tagp is None or sv is None:
                 rep.undecided("R18.4", F, "%s::%s" % (cname, ln), "conversion of the bus tag", "not found in the recognised form")
             else:
                 mcs = member_calls(sv.inner[-1])
@@ -330,7 +341,32 @@ def run(eng, rep) -> None:
     try:
         st_t = jb.template(HD + "can_static_schema.h")
         loops = st_t.loops()
-        its = {lp.iter_src.replace('"', "'").replace(" ", "") for lp in loops}
+        from jinja2 import nodes as J
+        from ..front_jinja import JTemplate
+        its = set()
+        for lp in loops:
+            # the population a loop runs over: the iterable with pure re-shaping filters (list, sort) removed, `{% set %}` aliases followed
+            e = lp.node.iter
+            assigns_ = st_t.assigns()
+            hops = 0
+            while True:
+                if isinstance(e, J.Name) and len(assigns_.get(e.name, [])) == 1 and hops < 4:
+                    e = assigns_[e.name][0].node
+                    hops += 1
+                    continue
+                if isinstance(e, J.Filter) and e.name in ("list", "sort", "unique"):
+                    e = e.node
+                    continue
+                if isinstance(e, J.Filter) and e.name in ("selectattr", "rejectattr", "select", "reject"):
+                    site = "for %s in ... | %s(%s)" % (lp.target, e.name, ", ".join(JTemplate.src(a) for a in e.args))
+                    if (e.name in ("selectattr", "rejectattr") and len(e.args) == 1) or (e.name in ("select", "reject") and not e.args):
+                        rep.violation("R18.5", HD + "can_static_schema.h", "tables", site, "the bindings are filtered by the truth value of %s: a binding whose value is 0 (CAN id 0 is valid) or empty is left out of the static tables although the run-time lookup has it" % (JTemplate.src(e.args[0]) if e.args else "each element"))
+                    else:
+                        rep.undecided("R18.5", HD + "can_static_schema.h", "tables", site, "the bindings are filtered by a test; that every CAN binding with an id passes is not decided")
+                    e = e.node
+                    continue
+                break
+            its.add(JTemplate.src(e).replace('"', "'").replace(" ", ""))
         rep.check(len(loops) >= 3 and its == {"fcp.get_matching_impls('can')"}, "R18.5", HD + "can_static_schema.h", "tables", "%d loops over %s" % (len(loops), sorted(its)), "every table is rendered from the CAN bindings",
                   "the static tables are not all rendered from fcp.get_matching_impls('can')")
         txt = srcs["can_static_schema.h"]
